@@ -8,7 +8,7 @@ import itertools
 import numpy as np
 import z3
 
-from .values import (NDArr, PyRaise, Unsupported, b_and, b_ite, b_not, b_or, is_sym, num_binop, num_cmp, simp, to_frac,
+from .values import (Cx, NDArr, PyRaise, Unsupported, b_and, b_ite, b_not, b_or, is_sym, num_binop, num_cmp, simp, to_frac,
                      z, obj_array, coerce_cell, arr_kind_of, elementwise, to_real, trunc_to_int)
 
 MODELS = {}
@@ -44,6 +44,8 @@ def dtype_kind(dtype, default="f"):
         return "i"
     if "bool" in name:
         return "b"
+    if "complex" in name:
+        return "c"
     if "float" in name or "double" in name:
         return "f"
     if "obj" in name:
@@ -696,10 +698,10 @@ def _shape(s):
 
 
 @model("numpy.zeros", "numpy.empty")
-def _zeros(I, shape, dtype=None, **kw):
+def _zeros(I, shape=None, dtype=None, **kw):
     k = dtype_kind(dtype)
     d = np.empty(_shape(shape), dtype=object)
-    fillv = Fraction(0) if k == "f" else (False if k == "b" else 0)
+    fillv = Fraction(0) if k == "f" else (False if k == "b" else (Cx(Fraction(0), Fraction(0)) if k == "c" else 0))
     for ix in np.ndindex(*d.shape):
         d[ix] = fillv
     return NDArr(d, k)
@@ -1355,3 +1357,58 @@ def cstack(I, parts):
         return NDArr(np.hstack(cols), kind)
     except ValueError:
         raise PyRaise("ValueError", "all the input array dimensions except for the concatenation axis must match exactly")
+
+
+# ---- complex ---------------------------------------------------------------------------------------------
+def _cx_map(f):
+    def g(I, v):
+        if isinstance(v, (NDArr, list, tuple)):
+            a = as_arr(v)
+            d = elementwise(lambda x: f(I, x), a)
+            return NDArr(d, arr_kind_of(d.reshape(-1)))
+        return f(I, v)
+    return g
+
+
+def _conj1(I, x):
+    return Cx(x.re, num_binop("-", 0, x.im)) if isinstance(x, Cx) else x
+
+
+def _real1(I, x):
+    return x.re if isinstance(x, Cx) else x
+
+
+def _imag1(I, x):
+    return x.im if isinstance(x, Cx) else (Fraction(0))
+
+
+def _abs2(x):
+    return num_binop("+", num_binop("*", x.re, x.re), num_binop("*", x.im, x.im))
+
+
+model("numpy.conj", "numpy.conjugate")(_cx_map(_conj1))
+model("numpy.real")(_cx_map(_real1))
+model("numpy.imag")(_cx_map(_imag1))
+model("Cx.real", prop=True)(lambda I, x: x.re)
+model("Cx.imag", prop=True)(lambda I, x: x.im)
+model("Cx.conjugate")(lambda I, x: _conj1(I, x))
+model("scalar.real", prop=True)(lambda I, x: x)
+model("scalar.imag", prop=True)(lambda I, x: 0)
+model("ndarray.real", prop=True)(lambda I, a: _cx_map(_real1)(I, a))
+model("ndarray.imag", prop=True)(lambda I, a: _cx_map(_imag1)(I, a))
+model("ndarray.conj", "ndarray.conjugate")(lambda I, a: _cx_map(_conj1)(I, a))
+_abs_real = MODELS["builtins.abs"].fn
+
+
+@model("builtins.abs", "numpy.abs", "numpy.fabs", "numpy.absolute")
+def _abs_cx(I, v):
+    if isinstance(v, Cx):
+        return _sqrt(I, _abs2(v))
+    if isinstance(v, NDArr) and v.kind == "c":
+        return NDArr(elementwise(lambda x: _abs_cx(I, x), v), "f")
+    return _abs_real(I, v)
+
+
+@model("builtins.complex")
+def _complex(I, re=0, im=0):
+    return Cx(to_real(re), to_real(im))
